@@ -80,6 +80,8 @@ def main():
     chunk_extract = int(m.group(1).replace("_", ""))
     m = need(r"(\d[\d_]*)u64\s*(?:\.max\([^)]*\))?\s*\.next_multiple_of\(payload_size\.line_size\(\) as u64\)", create_rs, "last_meta window")
     window = int(m.group(1).replace("_", ""))
+    m2 = re.search(r"\.max\((\d+) \* overlap as u64\)\s*\.next_multiple_of\(payload_size\.line_size\(\) as u64\)", create_rs)
+    window_factor = int(m2.group(1)) if m2 else 0
 
     file_rs = src("src/file.rs")
     m = need(r'const LINE_ENDS: &\[u8; 2\] = b"((?:\\.|[^"\\])*)";', file_rs, "LINE_ENDS")
@@ -133,6 +135,7 @@ def main():
     out.append(f"def chunkRead : Nat := {chunk_read}")
     out.append(f"def chunkExtract : Nat := {chunk_extract}")
     out.append(f"def windowBytes : Nat := {window}")
+    out.append(f"def windowOverlapFactor : Nat := {window_factor}")
     out.append(f"def version : Nat := {version}")
     out.append(f"def indexEntry : Nat := 16")
     out.append(f"def lineEnds : List UInt8 := {lean_bytes(line_ends)}")
